@@ -284,6 +284,7 @@ type simReader struct {
 	pos      int
 	rng      simrt.SplitMix
 	chunked  bool
+	eofData  bool // the read that delivers the last bytes also returns io.EOF (legal for an io.Reader; gzip and http bodies do it)
 	failAt   int // -1: never; fail with an error once pos >= failAt
 	closeErr bool
 	closed   int
@@ -311,6 +312,9 @@ func (r *simReader) Read(p []byte) (int, error) {
 	}
 	copy(p, r.data[r.pos:r.pos+n])
 	r.pos += n
+	if r.eofData && r.pos == len(r.data) && r.failAt < 0 {
+		return n, io.EOF
+	}
 	return n, nil
 }
 
@@ -331,6 +335,7 @@ type simTransport struct {
 }
 
 type chunkBody struct {
+	eofData bool
 	data   []byte
 	pos    int
 	rng    simrt.SplitMix
@@ -356,6 +361,9 @@ func (b *chunkBody) Read(p []byte) (int, error) {
 	}
 	copy(p, b.data[b.pos:b.pos+n])
 	b.pos += n
+	if b.eofData && b.pos == len(b.data) && b.failAt < 0 {
+		return n, io.EOF // as real http bodies often do with the last bytes
+	}
 	return n, nil
 }
 func (b *chunkBody) Close() error { return nil }
@@ -453,7 +461,7 @@ func (t *simTransport) RoundTrip(req *http.Request) (*http.Response, error) {
 	if cutAt >= 0 && cutAt < len(wire) {
 		wire = wire[:cutAt]
 	}
-	resp.Body = &chunkBody{data: wire, failAt: failAt, rng: simrt.SplitMix(simrt.HashString(url) ^ uint64(mySeq))}
+	resp.Body = &chunkBody{data: wire, failAt: failAt, rng: simrt.SplitMix(simrt.HashString(url) ^ uint64(mySeq)), eofData: (simrt.HashString(url)^uint64(mySeq))&2 != 0}
 	resp.ContentLength = -1
 	done(outcome, len(wire))
 	return resp, nil
